@@ -10,13 +10,15 @@ VERIF = os.path.dirname(os.path.dirname(os.path.abspath(__file__)))
 def main():
   props = [json.loads(l) for l in open(os.path.join(VERIF, "properties.jsonl"))]
   checks, na = [], []
+  claims_path = os.path.join(VERIF, "mon", "claims.json")
+  claims = set(json.load(open(claims_path))) if os.path.exists(claims_path) else None
   for p in props:
     pid = p["id"]
     path = os.path.join(VERIF, "mon", "props", f"{pid}.py")
     mod = None
     if os.path.exists(path):
       mod = importlib.import_module(f"mon.props.{pid}")
-    if mod is None or not getattr(mod, "CLAIM", True):
+    if mod is None or not getattr(mod, "CLAIM", True) or (claims is not None and pid not in claims):
       na.append({"property_id": pid, "reason": getattr(mod, "NA_REASON", "monitor not built yet in this round (no technical obstacle; see DESIGN.md section 4)")})
       continue
     checks.append(
